@@ -362,18 +362,23 @@ def writeFmt : List FmtItem → List WResp → WOut
 
 /-! ## unix/print.rs: `try_print`, `__UnixWriter` (`fmt::Write`), the `print!` family
 
-`try_print(fd, msg)` is *not* `write_all`: it always issues at least one `write` (also for an empty `msg`),
-returns `Ok(())` as soon as the kernel answers `0` (the rest of the piece is dropped), and maps every error —
-EINTR included — to `fmt::Error` (no retry).  A kernel answer larger than what was offered (cannot happen) ends the
-loop through `flushed >= len`; there is no slice index that could panic.  The responses are those of the `write`
-system call (`uerr` cannot occur; it is treated like any error to keep the function total). -/
+`try_print(fd, msg)` is *not* `write_all`: it always issues at least one `write` (also for an empty `msg`) and maps
+every error — EINTR included — to `fmt::Error` (no retry).  When the kernel answers `0` it returns `Ok(())` only if
+nothing was left to write (`flushed >= len`: the zero-length write of an empty piece) and `Err(fmt::Error)` otherwise
+(since the `fix:` commit e1fd457; the body before it is `Legacy.tryPrint` below).  A kernel answer larger than what
+was offered (cannot happen) ends the loop through `flushed >= len`; there is no slice index that could panic.  The
+responses are those of the `write` system call (`uerr` cannot occur; it is treated like any error to keep the
+function total).  `data` is the part of the piece not yet flushed (`&buf[flushed..]`), so `flushed >= len` is
+`data.length = 0`. -/
 
 def tryPrint (data : List Nat) : List WResp → WOut
   | [] => ⟨.ok (), data, [], [data.length], 0⟩
   | r :: rest =>
     match r with
     | .accept k =>
-      if k == 0 then ⟨.ok (), [], rest, [data.length], 1⟩
+      if k == 0 then
+        if data.length == 0 then ⟨.ok (), [], rest, [data.length], 1⟩
+        else ⟨.err .formatter, [], rest, [data.length], 1⟩
       else if data.length ≤ k then ⟨.ok (), data, rest, [data.length], 1⟩
       else (tryPrint (data.drop k) rest).push (data.take k) data.length
     | _ => ⟨.err .formatter, [], rest, [data.length], 1⟩
@@ -404,6 +409,37 @@ def printSeq : List (Bool × List FmtItem) → List WResp → WOut
   | (ln, items) :: more, script =>
     let o := printMacro ln items script
     o.after (printSeq more o.rest)
+
+/-! ### the code before the fix e1fd457
+
+`try_print` returned `Ok(())` as soon as the kernel answered `0`, whatever was left of the piece: the rest of the
+piece was dropped and `fmt::write` went on with the following pieces (Props/C15 `print_zero_return_loses_bytes`). -/
+namespace Legacy
+
+def tryPrint (data : List Nat) : List WResp → WOut
+  | [] => ⟨.ok (), data, [], [data.length], 0⟩
+  | r :: rest =>
+    match r with
+    | .accept k =>
+      if k == 0 then ⟨.ok (), [], rest, [data.length], 1⟩
+      else if data.length ≤ k then ⟨.ok (), data, rest, [data.length], 1⟩
+      else (tryPrint (data.drop k) rest).push (data.take k) data.length
+    | _ => ⟨.err .formatter, [], rest, [data.length], 1⟩
+
+def printFmt : List FmtItem → List WResp → WOut
+  | [], script => ⟨.ok (), [], script, [], 0⟩
+  | .fail :: _, script => ⟨.err .formatter, [], script, [], 0⟩
+  | .str bs :: items, script =>
+    let o := tryPrint bs script
+    match o.res with
+    | .ok _ => o.after (printFmt items o.rest)
+    | _ => o
+
+def printMacro (ln : Bool) (items : List FmtItem) (script : List WResp) : WOut :=
+  let o := printFmt items script
+  if ln then o.after (tryPrint NL o.rest) else o
+
+end Legacy
 
 /-- deterministic printable-ASCII content of length `len` (test-data generator shared with the harness) -/
 def genBytes (len seed : Nat) : List Nat :=
